@@ -1991,8 +1991,16 @@ func gen(g *core.G) {
 	if g.Thorough() {
 		n = 5
 	}
-	// 1. exhaustive small universes
-	sequences(shAlphabet(), n, func(ops []string) { g.Emit("sh " + strings.Join(ops, " ")) })
+	// 1. exhaustive small universes.  StringHash: every sequence of length 4 over the full alphabet (17 operations); the
+	// thorough tier adds every sequence of length 5 over a 12-operation sub-alphabet (1.4 million lines of length 5 over
+	// the full alphabet made the run memory-bound: ops timed out under load although nothing was wrong)
+	sequences(shAlphabet(), 4, func(ops []string) { g.Emit("sh " + strings.Join(ops, " ")) })
+	if g.Thorough() {
+		small := []string{"(put " + k("a") + " 1)", "(put " + k("a") + " 2)", "(put " + k("b") + " 1)", "(put " + k("c") + " 1)",
+			"(delete " + k("a") + ")", "(delete " + k("b") + ")", "(delete " + k("c") + ")", "(cia " + k("a") + " 3)", "(cia " + k("c") + " 3)",
+			"(merge (" + k("a") + " 4) (" + k("c") + " 5))", "(copy)", "(freeze)"}
+		sequences(small, 5, func(ops []string) { g.Emit("sh " + strings.Join(ops, " ")) })
+	}
 	halpha := hashAlphabet()
 	sequences(halpha, n-1, func(ops []string) {
 		// pool[0] = {1=>1, '1'=>2, [1]=>3}; `L` = the hash made by the previous step
